@@ -1184,6 +1184,11 @@ func buildMessageFieldSchema(pkg *Package, context fieldContext, src protoreflec
 	isOneofWrapper := isOneofWrapper(msg, msgOptions)
 
 	ref, didExist := newRefPlaceholder(pkg.PackageSet, msg)
+	if didExist && flatten && ref.To == nil {
+		// The message is still being built further up the stack: flattening
+		// it here would inline an object into itself without end.
+		return nil, fmt.Errorf("field %s flattens %s recursively", src.Name(), msg.FullName())
+	}
 	if !didExist {
 		var err error
 		if isOneofWrapper {
